@@ -64,9 +64,17 @@ def header(t, length, xid, version=OFP_VERSION):
   return struct.pack("!BBHL", version & 0xff, t & 0xff, length & 0xffff, xid & 0xffffffff)
 
 
-def pattern(f, n, step=13):
-  """n deterministic bytes selected by f (never all zero for n > 0 unless f says so)."""
-  return bytes(((f * 7 + 1 + i * step + (i >> 8)) & 0xff) for i in range(n))
+_BASE = bytes(((1 + i * 13 + (i >> 8)) & 0xff) for i in range(65536))
+_SHIFT = {}
+
+
+def pattern(f, n):
+  """n deterministic bytes selected by f: byte i is (7f + 1 + 13i + (i >> 8)) mod 256."""
+  sh = (f * 7) & 0xff
+  t = _SHIFT.get(sh)
+  if t is None:
+    t = _SHIFT[sh] = bytes(((b + sh) & 0xff) for b in range(256))
+  return _BASE[:n].translate(t)
 
 
 def _zs(text, width):
@@ -285,7 +293,22 @@ def max_n(t, k=0, f=0):
   return _MAX_N[key]
 
 
+_BUILT = {}
+
+
 def build(spec):
+  key = (spec["t"], spec.get("n", 0) or 0, spec.get("f", 0) or 0, spec.get("k", 0) or 0, spec.get("xid", 0) or 0,
+         spec.get("ver", OFP_VERSION) or OFP_VERSION)
+  b = _BUILT.get(key)
+  if b is None:
+    b = _build(spec)
+    if len(_BUILT) > 4000:
+      _BUILT.clear()
+    _BUILT[key] = b
+  return b
+
+
+def _build(spec):
   t = spec["t"]
   n = int(spec.get("n", 0) or 0)
   f = int(spec.get("f", 0) or 0)
@@ -301,7 +324,7 @@ def build(spec):
   for fl in fields:
     got = int.from_bytes(data[fl["off"]:fl["off"] + fl["size"]], "big")
     assert got == fl["value"], (fl, got)
-  return Built(data, fields, spec)
+  return Built(data, fields, dict(spec))
 
 
 # --------------------------------------------------------------------------- framing by declared length
